@@ -22,6 +22,8 @@ pub enum TransformError {
   AlreadyDefined(String),
   #[error("source `{0}` should be $-prefixed.")]
   MalformedVar(String),
+  #[error("`{0}` is not a valid regex.")]
+  InvalidRegex(String),
 }
 
 pub struct Transform {
